@@ -1,13 +1,13 @@
 """C13 — pow / log / root are exact: case generator.
 
 Case lines:  `opow|cpow|spow|wpow|pow bits a e`, `log|clog bits x base`, `log2|log10|clog2|clog10 bits x`,
-`root bits x degree` (all numbers hex).  The harness prints the float-derived first guess of log/root next to
+`root bits x degree` (all numbers hex), `apow2i bits n` (approx_pow2 of the signed decimal integer n), `alog2 bits x`.  The harness prints the float-derived first guess of log/root next to
 the result; the Lean driver runs the model from that guess and evaluates the theorems' hypotheses on it."""
 from vgen import *
 
 BIN = 'c13'
 DRV = 'drv_c13'
-TIMEOUT = 900
+TIMEOUT = 600
 POW_OPS = ['opow', 'cpow', 'spow', 'wpow', 'pow']
 LOG1_OPS = ['log2', 'log10', 'clog2', 'clog10']
 RULE = ('corpus (defect witnesses, doc examples, slow-convergence root example), then exhaustive (a,e) / (x,base) / (x,degree 0..bits+2) '
@@ -15,7 +15,8 @@ RULE = ('corpus (defect witnesses, doc examples, slow-convergence root example),
         '37 widths: pow with a^e straddling 2^bits (largest non-overflowing exponent +-1, largest non-overflowing base +-1), bases '
         '0,1,2,3,10,2^32,MAX, exponents 0,1,2,63,64,65,bits+-1,huge; log with value = base^k-1/base^k/base^k+1, half-way values '
         '(estimate near x.5), base >= value, base = 2^k, bases 2,3,10,2^32,MAX, zero/one operands; root with value = r^k-1/r^k/r^k+1, '
-        'MAX, degree in 1..bits+2, degree 0, degree >= bits, huge degree; non-trivial = width>0 and not all operands zero; distinct by case hash')
+        'MAX, degree in 1..bits+2, degree 0, degree >= bits, huge degree; approx_pow2 on all integer exponents -3..bits+3 and approx_log2 bracket checks; '
+        'all cases shuffled; non-trivial = width>0 and not all operands zero; distinct by case hash')
 TRUSTED = ['libm (log2, exp2) and the host FPU: NOT modelled; the float-derived first guess of log/root is a parameter of the model, '
            'read back from the implementation through verif_hooks::tap and checked against the theorems\' hypothesis on every case',
            'root: the integer first guess is obtained in the harness by calling the real Uint::approx_pow2 on the tapped f64']
@@ -236,9 +237,34 @@ def exhaustive(tier):
                 yield 'root %d %x %x' % (bits, a, k)
 
 
+def approx_cases(rng, tier):
+    """approx_pow2 on integer exponents (exact: 2^n / None from n = bits on; exercises try_from + checked_shl),
+    approx_log2 bracket check"""
+    for bits in GRID_ALL:
+        ns = set(range(-3, min(bits, 70) + 4)) | {bits - 2, bits - 1, bits, bits + 1, bits + 2, 62, 63, 64, 65, 127, 128, 129}
+        if tier == 'thorough' or bits <= 521:
+            ns |= set(range(0, bits + 3))
+        else:
+            ns |= set(rng.randrange(0, bits + 3) for _ in range(200))
+        for n in sorted(ns):
+            yield 'apow2i %d %d' % (bits, n)
+        m = 1 << bits
+        xs = {0, 1 % m, 2 % m, 3 % m, m - 1, (m - 2) % m}
+        for k in range(bits):
+            xs |= {1 << k, ((1 << k) - 1) % m, ((1 << k) + 1) % m}
+        for _ in range(30):
+            xs.add(value(rng, bits))
+        for x in sorted(xs):
+            if 0 <= x < max(m, 1):
+                yield 'alog2 %d %x' % (bits, x)
+
+
 def gen(rng, tier):
-    yield from exhaustive(tier)
-    n = 24000 if tier == 'quick' else 500000
+    """all cases, shuffled (deterministically): non-terminating cases of a broken `root`/`log` cost a
+    time-out each, so they must be spread evenly over the parallel chunks"""
+    out = list(exhaustive(tier))
+    out += list(approx_cases(rng, tier))
+    n = 60000 if tier == 'quick' else 1500000
     k = 0
     while k < n:
         bits = rng.choice(GRID_ALL)
@@ -247,17 +273,19 @@ def gen(rng, tier):
         r = rng.random()
         if r < 0.3:
             for a, e in gen_pow(rng, bits):
-                yield '%s %d %x %x' % (rng.choice(POW_OPS), bits, a, e)
+                out.append('%s %d %x %x' % (rng.choice(POW_OPS), bits, a, e))
                 k += 1
         elif r < 0.55:
             for x, b in gen_log(rng, bits):
-                yield '%s %d %x %x' % (rng.choice(['log', 'clog', 'clog']), bits, x, b)
+                out.append('%s %d %x %x' % (rng.choice(['log', 'clog', 'clog']), bits, x, b))
                 k += 1
         elif r < 0.65:
             for x in gen_log1(rng, bits):
-                yield '%s %d %x' % (rng.choice(LOG1_OPS), bits, x)
+                out.append('%s %d %x' % (rng.choice(LOG1_OPS), bits, x))
                 k += 1
         else:
             for x, d in gen_root(rng, bits):
-                yield 'root %d %x %x' % (bits, x, d)
+                out.append('root %d %x %x' % (bits, x, d))
                 k += 1
+    rng.shuffle(out)
+    return out
